@@ -928,3 +928,69 @@ def misc_hazard_rules(ctx: Ctx, functions) -> int:
                   message=f"`{short(items[0][1], 80)}`: {texts[r_][1]}" if items else "", file=items[0][0].file if items else next(iter(p.sources)),
                   node=items[0][1] if items else None)
     return n
+
+
+MEMO_DECORATORS = {"lru_cache", "cache", "cached_property"}
+_EXEMPT_MODULES = ("scoda/settings/", "scoda/misc/scoda_logging", "scoda/misc/logging")
+
+
+def process_state_rule(ctx: Ctx, rule: str = "MEMO") -> int:
+    """No result of the library depends on what the process did before: (1) no function or property is wrapped in a
+    functools memoiser (every caller would share one result object, and a result computed from a mutable argument or a file
+    goes stale); (2) no module-level container is changed from inside a function (settings and logging apart)."""
+    p = ctx.p
+    n = 0
+    bad = []
+    for fi in p.all_functions():
+        if fi.file.startswith(_EXEMPT_MODULES) or any(x in fi.file for x in _EXEMPT_MODULES):
+            continue
+        n += 1
+        for d in fi.node.decorator_list:
+            f = d.func if isinstance(d, ast.Call) else d
+            name = f.attr if isinstance(f, ast.Attribute) else (f.id if isinstance(f, ast.Name) else None)
+            if name in MEMO_DECORATORS:
+                bad.append((fi, d, f"`@{short(d, 40)}` on {fi.qualname}", "every call with equal arguments returns the object made by the first one: callers share it, and it "
+                                                                        "does not follow later changes of a mutable argument, a file or a setting"))
+    # module-level containers
+    for path, mi in p.modules.items():
+        if any(x in path for x in _EXEMPT_MODULES):
+            continue
+        glob = {}
+        for st in mi.tree.body:
+            tgt, val = None, None
+            if isinstance(st, ast.Assign) and len(st.targets) == 1 and isinstance(st.targets[0], ast.Name):
+                tgt, val = st.targets[0].id, st.value
+            elif isinstance(st, ast.AnnAssign) and isinstance(st.target, ast.Name) and st.value is not None:
+                tgt, val = st.target.id, st.value
+            if tgt and (isinstance(val, (ast.Dict, ast.List, ast.Set)) or (isinstance(val, ast.Call) and isinstance(val.func, ast.Name)
+                                                                           and val.func.id in ("dict", "list", "set", "defaultdict", "OrderedDict"))):
+                glob[tgt] = st
+        if not glob:
+            continue
+        for fi in p.all_functions():
+            if fi.file != path:
+                continue
+            local = {a.arg for a in fi.node.args.args + fi.node.args.kwonlyargs} | {x.id for x in ast.walk(fi.node) if isinstance(x, ast.Name) and isinstance(x.ctx, ast.Store)}
+            declared = {nm for g in ast.walk(fi.node) if isinstance(g, ast.Global) for nm in g.names}
+            for x in ast.walk(fi.node):
+                nm = None
+                if isinstance(x, ast.Call) and isinstance(x.func, ast.Attribute) and isinstance(x.func.value, ast.Name) and x.func.attr in MUTATORS_LOCAL:
+                    nm = x.func.value.id
+                elif isinstance(x, (ast.Assign, ast.AugAssign, ast.Delete)):
+                    for t in (x.targets if isinstance(x, (ast.Assign, ast.Delete)) else [x.target]):
+                        b = t
+                        while isinstance(b, ast.Subscript):
+                            b = b.value
+                        if b is not t and isinstance(b, ast.Name):
+                            nm = b.id
+                        elif isinstance(t, ast.Name) and t.id in declared:
+                            nm = t.id
+                if nm in glob and (nm not in local or nm in declared):
+                    bad.append((fi, x, f"module-level `{nm}` changed in {fi.qualname}", "state shared by every call in the process: later results depend on the call history"))
+    ctx.check(not bad, rule, f"no memoised function and no module-level container written by a function ({n} functions inspected)",
+              function=bad[0][0].qualname if bad else "*", construct=bad[0][2] if bad else "ok", message=bad[0][3] if bad else "",
+              file=bad[0][0].file if bad else next(iter(p.sources)), node=bad[0][1] if bad else None)
+    return n
+
+
+MUTATORS_LOCAL = {"append", "extend", "insert", "pop", "remove", "clear", "sort", "reverse", "update", "setdefault", "popitem", "add", "discard", "__setitem__"}
